@@ -34,7 +34,9 @@ def run_property(pid, mod, tier, seed, t0):
     if not audit["ok"]:
         if audit["bad"]:
             print(audit["bad"]); print(f"MACHINERY-ERROR property={pid} non-standard axioms"); return 2
-        generated_broken = "Generated" in audit["log"]
+        # a property whose definitions are regenerated from the source: the hand-written proofs are re-checked
+        # against them, so a failure to build is a broken tie (on the unchanged tree they build: setup + vp check)
+        generated_broken = ("Generated" in audit["log"]) or hasattr(mod, "regenerate")
         if not generated_broken:
             print(audit["log"][-3000:]); print(f"MACHINERY-ERROR property={pid} hand-written proofs do not build"); return 2
         broken.append({"kind": "proof-obligation", "what": "regenerated definitions no longer satisfy the tie obligations",
